@@ -1,0 +1,24 @@
+//go:build verif
+
+package searcher
+
+import "github.com/blevesearch/bleve/v2/search"
+
+// VerifPhrasePart is one step of a phrase path, for the verification harness.
+type VerifPhrasePart struct {
+	Term string
+	Loc  *search.Location
+}
+
+// VerifFindPhrasePaths runs the phrase matcher alone over a term location map, the way the phrase
+// searcher calls it for one candidate document.
+func VerifFindPhrasePaths(phraseTerms [][]string, tlm search.TermLocationMap, slop int) [][]VerifPhrasePart {
+	paths := findPhrasePaths(0, nil, phraseTerms, tlm, nil, slop, nil)
+	rv := make([][]VerifPhrasePart, len(paths))
+	for i, p := range paths {
+		for _, part := range p {
+			rv[i] = append(rv[i], VerifPhrasePart{Term: part.term, Loc: part.loc})
+		}
+	}
+	return rv
+}
